@@ -20,7 +20,7 @@ struct Context {
 void init_context(Context &gc);
 ops::Plan generate(Context &gc, uint64_t run_seed, uint64_t index);
 uint64_t enum_size(Context &gc);
-ops::Plan warmup_plan(Context &gc);
+ops::Plan warmup_plan(Context &gc, uint64_t env_seed = 0);
 
 // C11
 int c11_worker(uint64_t seed, uint64_t from, uint64_t to, uint64_t step, double budget_s, uint64_t samples, const std::string &tier, const std::string &mode);
